@@ -453,6 +453,15 @@ def structure_cases():
                 if fill > 2 and w * h > 1:
                     continue
                 cels.append((f"tm{w}x{h}f{fill}", [tm_cel(w, h, [fill] * (w * h))]))
+    # tilemap cels declaring 8 or 16 bits per tile with data of exactly that size (only 32 is supported)
+    def tm_cel_bits(bits, ids):
+        fmt = {8: "<B", 16: "<H", 32: "<I", 64: "<Q"}[bits]
+        z = zlib.compress(b"".join(struct.pack(fmt, t) for t in ids))
+        return mk_chunk(0x2005, struct.pack("<HhhBH", 0, 0, 0, 255, 3) + bytes(7)
+                        + struct.pack("<HHHIIII", len(ids), 1, bits, 0x1fffffff, 0x20000000, 0x40000000, 0x80000000) + bytes(10) + z)
+    for bits in (8, 16, 64):
+        for ids in ([0], [1], [0, 1], [1, 1, 0, 1]):
+            cels.append((f"tmb{bits}n{len(ids)}i{ids[0]}", [tm_cel_bits(bits, ids)]))
     tilesets = [("ts-", []), ("ts0n1", [tileset(0, 1)]), ("ts0n2", [tileset(0, 2)]), ("ts1n2", [tileset(1, 2)]),
                 ("ts0n0", [tileset(0, 0)]), ("ts0n2+1n1", [tileset(0, 2), tileset(1, 1)])]
     layers = [("img", layer(0, 0)), ("grp", layer(1, 0)), ("tm0", layer(2, 0)), ("tm1", layer(2, 1)), ("tm7", layer(2, 7))]
@@ -540,6 +549,13 @@ def structure_cases():
                      ("after-ignorable", [mk_chunk(0x2017, b"")]), ("after-layer", [mk_layer()])):
         out.append((f"dangling-ud/{tag}", mk_header(1, 2, 2) + mk_frame(pre + [ud, mk_layer(name=b"Z")])))
         out.append((f"dangling-ud/{tag}/frame1", mk_header(2, 2, 2) + mk_frame(pre) + mk_frame([ud, mk_layer(name=b"Z")])))
+    # user data whose properties block (flags bit 4; skipped by the parser) holds a value nested
+    # 100000 vectors deep (a parser that walks it recursively overflows a 2 MiB stack)
+    for depth in (3, 100000):
+        props = struct.pack("<III", 1, 0, 1) + struct.pack("<H", 1) + b"p" + struct.pack("<H", 0x11)
+        props += struct.pack("<IH", 1, 0x11) * (depth - 1) + struct.pack("<IH", 1, 3) + b"\x07"
+        udp = mk_chunk(0x2020, struct.pack("<I", 1 | 4) + struct.pack("<H", 5) + b"hello" + struct.pack("<I", len(props) + 4) + props)
+        out.append((f"ud-props-nested/{depth}", mk_header(1, 2, 2) + mk_frame([mk_layer(), udp, mk_layer(name=b"Z")])))
     # tileset chunks whose declared sizes are extreme in all three fields at once
     for depth in (8, 16, 32):
         for count in (0xFFFFFFFF, 0x80000000, 0x40008001, 0x10000, 1):
@@ -1273,7 +1289,9 @@ def c18_run(ctx, scale):
         rot = 4 * rng.randrange(len(qs))        # any query may be the first pixel
         img = ((qb[rot:] + qb[:rot]) * 2)[: 4 * w * h]
         cid2 = f"idx{k}"
-        reqs.append(f"UTIL {cid2} indexed {f.hex()} {failure} {transp} {w} {h} {img.hex()}")
+        # every other request hands over a backing buffer with spare bytes behind the w*h pixels
+        spare = "" if k % 2 == 0 else " " + bytes(rng.randrange(256) for _ in range(rng.choice([1, 3, 4, 8, 13, 16]))).hex()
+        reqs.append(f"UTIL {cid2} indexed {f.hex()} {failure} {transp} {w} {h} {img.hex()}{spare}")
         mreqs_model.append(f"UTIL {cid2}:fwd indexed {f.hex()} {failure} {transp} fwd {w} {h} {img.hex()}")
         meta[cid2] = ("indexed", first, entries, failure, transp, [tuple(img[4 * j:4 * j + 4]) for j in range(w * h)], w, h)
     # palettes far larger than any index the mapper can return (u16 / u32 counters of entries)
@@ -1541,8 +1559,30 @@ def c14_run(ctx, scale):
             k = min(end - 1, 130 + code)
             add(f"kind{code}@{k}", ",".join(["d1"] * k + [f"f{code}"]), f"io:{'UnexpectedEof' if code == 0 else code}")
             add(f"plainkind{code}@{k}", ",".join(["d1"] * k + [f"F{code}"]), f"io:{'UnexpectedEof' if code == 0 else code}")
+    # truncated files through read_file: the same result (also the same error value) as the same
+    # bytes from memory
+    datas = dict(base)
+    for cid, b in list(base):
+        end = end_of_last_frame(b) or len(b)
+        for cut in sorted({0, 50, 127, 136, end // 2, end - 1}):
+            tcid = f"{cid}~{cut}"
+            datas[tcid] = b[:cut]
+            for tag, ev in (("plain", "-"), ("file", "file"), ("bufreader3", "bufreader:3")):
+                rid = f"{tcid}|{tag}"
+                reqs.append(f"SCHED {rid} {b[:cut].hex() or '-'} {ev}")
+                meta[rid] = (tcid, "same")
     m, _ = vlib.run_model(reqs)
     i, _ = vlib.run_impl(reqs)
+    # read_file on a missing path and on a directory (implementation only; the expectation is stated
+    # by the harness: the error std::fs reports for that path is the one carried as source)
+    for profile in ("release", "relchk"):
+        o, _ = vlib.run_impl(["SCHED osmissing - missingfile", "SCHED osdir - dirfile"], profile)
+        for rid in ("osmissing", "osdir"):
+            res.evaluations += 1
+            got = (o.get(rid) or ["missing"])[0]
+            if got != "load err io:os-error-carried":
+                res.oracle_failures.append({"id": rid, "build_profile": profile, "call": "AsepriteFile::read_file(" + ("a path that does not exist" if rid == "osmissing" else "a directory") + ")",
+                                            "what": "the I/O error reported for the path is not the one returned as the IoError's source: " + got[:400]})
     res.sections = ALL
     plain = {}
     for rid, (cid, expect) in meta.items():
@@ -1555,7 +1595,7 @@ def c14_run(ctx, scale):
         il, ml = i.get(rid), m.get(rid)
         if il is None or ml is None:
             raise vlib.Broken("no observation for " + rid)
-        data_hex = dict(base)[cid].hex()
+        data_hex = datas[cid].hex()
         fail = None
         if expect == "same":
             if il != plain[cid]:
@@ -1724,6 +1764,25 @@ def hostile_memory_inputs(ctx, scale):
         f0 = mk_frame([mk_layer()] * nl + [mk_chunk(0x2005, struct.pack("<HhhBH", nl - 1, 0, 0, 255, 0) + bytes(7) + struct.pack("<HH", 1, 1) + px)])
         link = mk_chunk(0x2005, struct.pack("<HhhBH", nl - 1, 0, 0, 255, 1) + bytes(7) + struct.pack("<H", 0))
         out.append((f"dense/{nl}x{nf}", mk_header(nf, 4, 4) + f0 + mk_frame([link]) * (nf - 1)))
+    # tilesets with a large declared tile count followed by several user data chunks (a per-tile
+    # user-data table must not be sized by the declared count)
+    udc = mk_chunk(0x2020, struct.pack("<I", 1) + struct.pack("<H", 1) + b"u")
+    for flags, cnt in ((1, 0xFFFFFFF0), (1, 1 << 26), (5, 1 << 28), (0, 1 << 30), (2, 1 << 22)):
+        body = struct.pack("<IIIHHh", 0, flags, cnt, 1, 1, 1) + bytes(14) + struct.pack("<H", 0)
+        if flags & 1:
+            body += struct.pack("<II", 7, 0)
+        if flags & 2:
+            z = zlib.compress(bytes(cnt * 4), 9)
+            body += struct.pack("<I", len(z)) + z
+        for nud in (1, 2, 5):
+            out.append((f"tileset-then-ud/{flags}/{cnt:x}/{nud}", mk_header(1, 4, 4) + mk_frame([mk_layer(), mk_chunk(0x2023, body)] + [udc] * nud + [mk_layer()])))
+    # many tags each spanning frames 0..=65534 in a file of 1 frame / 65535 frames (a frame -> tags
+    # index must not be sized by to_frame x tags); tags with from > to
+    for ntags, fr, to in ((512, 0, 65534), (2000, 65534, 65535), (512, 65535, 0)):
+        p = struct.pack("<H", ntags) + bytes(8)
+        for t in range(ntags):
+            p += struct.pack("<HHBH", fr, to, 0, 0) + bytes(6) + struct.pack("<I", 0) + struct.pack("<H", 0)
+        out.append((f"tags-span/{ntags}/{fr}-{to}", mk_header(1, 4, 4) + mk_frame([mk_layer(), mk_chunk(0x2018, p)])))
     # many tags chunks each declaring 65535 tags
     tags = mk_chunk(0x2018, struct.pack("<H", 65535) + bytes(8))
     out.append(("tags-declared", mk_header(1, 4, 4) + mk_frame([mk_layer()] + [tags] * 50)))
@@ -2131,6 +2190,59 @@ def c10_run(ctx, scale):
     compare_cases(res, files, m, i, ["layer", "celA", "slice", "tag", "sprite_ud"], orc, what="user data of every entity")
     res.distribution["sequences"] = len(files)
     res.distribution["max_length"] = maxlen
+    # two Tags chunks in one file (same frame or a later frame): the later chunk REPLACES the tag
+    # list; records that followed the earlier chunk went to tags that no longer exist
+    def tagsn(n, prefix):
+        p = struct.pack("<H", n) + bytes(8)
+        for t in range(n):
+            nm = (prefix + str(t)).encode()
+            p += struct.pack("<HHBH", 0, 0, 0, 0) + bytes(6) + struct.pack("<I", 0) + struct.pack("<H", len(nm)) + nm
+        return mk_chunk(0x2018, p)
+    files2, exp2 = [], {}
+    for n1 in (1, 2, 3):
+        for a in range(n1 + 1):
+            for n2 in (1, 2, 3):
+                for b in range(n2 + 1):
+                    for split in (0, 1):
+                        for mid in (0, 1):
+                            first = [mk_layer(name=b"L0"), tagsn(n1, "a")] + [ud_chunk(f"A{k}") for k in range(a)]
+                            if mid:
+                                first += [mk_layer(name=b"L1"), ud_chunk("M")]
+                            second = [tagsn(n2, "b")] + [ud_chunk(f"B{k}") for k in range(b)]
+                            data = mk_header(2, 2, 2) + (mk_frame(first) + mk_frame(second) if split else mk_frame(first + second) + mk_frame([]))
+                            cid = f"tags-twice/{n1}.{a}/{n2}.{b}/{split}{mid}"
+                            files2.append((cid, data))
+                            exp2[cid] = (n2, b, mid)
+    m2, i2 = run_both(files2)
+    def orc2(cid, data, impl, model):
+        if cid.endswith(("/10", "/11")):
+            # a Tags chunk outside the first frame is ignored by the loader (by design: "Ignoring tags
+            # outside of frame 0"); such files are compared with the model only
+            return None
+        if vlib.outcome(impl) != "ok":
+            return "a well-formed chunk sequence did not load: " + vlib.outcome_detail(impl)
+        n2, b, mid = exp2[cid]
+        tags = [l.split(" ") for l in impl if l.startswith("tag ")]
+        if len(tags) != n2:
+            return f"{len(tags)} tags reported; the last Tags chunk declares {n2}"
+        for k, w in enumerate(tags):
+            ud = next((x[3:] for x in w if x.startswith("ud=")), None)
+            name = next((x[5:] for x in w if x.startswith("name=")), None)
+            want = f"t:{hexname('B%d' % k)},c:-" if k < b else "-"
+            if ud != want:
+                return f"tag {k} reports user data {ud}, expected {want} (records after the last Tags chunk attach to its tags in order)"
+            if name is not None and name != hexname("b%d" % k) and name != "b%d" % k:
+                return f"tag {k} is named {name}, expected b{k} of the last Tags chunk"
+        lay = [l for l in impl if l.startswith("layer ")]
+        for l in lay:
+            w = l.split(" ")
+            ud = next((x[3:] for x in w if x.startswith("ud=")), None)
+            want = f"t:{hexname('M')},c:-" if (mid and w[1] == "1") else "-"
+            if ud != want:
+                return f"layer {w[1]} reports user data {ud}, expected {want}"
+        return None
+    compare_cases(res, files2, m2, i2, ["layer", "celA", "slice", "tag", "sprite_ud"], orc2, what="user data with two Tags chunks")
+    res.distribution["two_tags_chunk_files"] = len(files2)
     # random longer programs from the type-directed generator (three-way via the model)
     gen = wf_routine(["layer", "celA", "celB", "celC", "slice", "tag", "sprite_ud"],
                      [("struct", 200, 5000)], "", corpus=True,
